@@ -83,7 +83,7 @@ func configs07(tier string) []xplore.Config {
 func run07(cfg xplore.Config, ch vrt.Chooser, trace bool) (xplore.Outcome, *vrt.Result) {
 	d := cfg.Data.(cfg07)
 	var out xplore.Outcome
-	res := vrt.Run(ch, vrt.Options{Trace: trace}, func() {
+	res := vrt.Run(ch, vrt.Options{Reverse: cfg.Reverse, Trace: trace}, func() {
 		a := &acl{allowed: map[string]bool{"t1": d.allowT1, "t2": d.allowT2}, fail: d.fail}
 		w := newWorld([]string{"t1", "t2"}, subscribe.WithACL(a))
 		setupInitial(w)
